@@ -72,7 +72,7 @@ m = {
     "level_note": v[3], "technique": "property-based testing: " + v[0]}
    for k, v in sorted(CHECKS.items())
  ],
- "notes": "All checks: exit 0 held / 1 violation (VIOLATION line) / 2 infrastructure or inconclusive. Known findings: /verif/known_findings.json. VERIF_SEED, VERIF_TIER, VERIF_PRNG={chacha|pcg64|xoshiro} honoured.",
+ "notes": "All checks: exit 0 held / 1 violation (VIOLATION line) / 2 infrastructure or inconclusive. Known findings: /verif/known_findings.json. VERIF_SEED, VERIF_TIER, VERIF_PRNG={chacha|pcg64|xoshiro} honoured. /repo commit 83e9298 (driver snapshot of the working tree) is not a hook and is not listed under hooks.source_commits: it is a seeded change left behind by an interrupted scripts/eval_seeded.sh run, removed in full by fix: commit c31dcc2 (DESIGN.md §0; known_findings.json, C07 fixed entry); 83e9298 + c31dcc2 together leave src/ byte-identical to b017c0c.",
  "not_applicable": [{"property_id": k, "reason": v} for k, v in sorted(NA.items()) if k not in CHECKS],
 }
 json.dump(m, open("/verif/MANIFEST.json","w"), indent=1)
